@@ -82,6 +82,30 @@ def MROMerge(input_seqs):
     raise MROError(input_seqs) from e
 
 
+def CheckDuplicateBases(bases):
+  """Raise MROError if a class is listed twice in a list of direct bases.
+
+  MROMerge removes duplicates from each of its input sequences, so a repeated
+  base class ("class C(A, A)", a TypeError at runtime) has to be detected
+  before merging. Special singleton classes (e.g. unknown bases) may repeat,
+  and differently parameterized versions of one generic class are left to the
+  more specific checks for conflicting type parameters.
+
+  Args:
+    bases: The direct bases of a class.
+
+  Raises:
+    MROError: If a base class appears more than once.
+  """
+  seen = []
+  for base in bases:
+    if getattr(base, "SINGLETON", False):
+      continue
+    if base in seen:
+      raise MROError([list(bases)])
+    seen.append(base)
+
+
 def _GetClass(t, lookup_ast):
   if t.cls:
     return t.cls
@@ -100,6 +124,7 @@ def _ComputeMRO(t, mros, lookup_ast):
     if t not in mros:
       mros[t] = None
       base_mros = []
+      CheckDuplicateBases(_GetClass(t, lookup_ast).bases)
       for base in _GetClass(t, lookup_ast).bases:
         if base in mros:
           if mros[base] is None:
@@ -123,6 +148,7 @@ def _ComputeMRO(t, mros, lookup_ast):
 
 def GetBasesInMRO(cls, lookup_ast=None):
   """Get the given class's bases in Python's method resolution order."""
+  CheckDuplicateBases(cls.bases)
   mros = {}
   base_mros = []
   for p in cls.bases:
